@@ -292,8 +292,14 @@ impl IndexFooter {
     /// Validate footer integrity using MD5
     pub fn is_valid(&self) -> bool {
         let expected = self.calculate_footer_hash();
-        let actual_len = self.footer_hash.len().min(self.footer_hash_bytes as usize);
-        self.footer_hash[..actual_len] == expected[..actual_len]
+        // The stored hash must have exactly the declared length, and that length
+        // must be one the truncated MD5 can provide; comparing a shorter (or
+        // empty) prefix would accept a footer whose hash was never checked.
+        let declared = self.footer_hash_bytes as usize;
+        if declared == 0 || declared > expected.len() || self.footer_hash.len() != declared {
+            return false;
+        }
+        self.footer_hash[..] == expected[..declared]
     }
 
     /// Write footer to writer
